@@ -1456,6 +1456,8 @@ func (state *pexState) add(p pex.Peer) {
 		if len(state.pendingDel) == 0 {
 			state.pendingDel = nil
 		}
+		// we haven't told our peer that it's gone
+		state.sent = append(state.sent, p)
 		return
 	}
 
